@@ -99,9 +99,15 @@ func parseCuts(s string) map[int]bool {
 // genStreamFiles yields byte strings: valid grammar files (bytes come from the Lean grammar), their
 // truncations, and raw soups.
 func genStreamFile(r *Rng, m *Model) []byte {
-	switch r.Intn(7) {
+	switch r.Intn(8) {
 	case 0:
 		return genRawSMF(r)
+	case 7:
+		// a grammar file in which one chunk's declared length and its content disagree: padding behind the
+		// end-of-track that the length covers, a length that reaches into the next chunk, a length that is too short
+		c := genGram(r, "quick")
+		b := unhx(fields(m.Ask(c.Op))["bytes"])
+		return lieAboutChunkLength(r, b)
 	case 1:
 		// a grammar file whose MThd chunk declares another length than 6 (SMF 1.0 allows a longer header):
 		// the extra bytes follow the six known ones, a shorter one cuts into them
@@ -137,6 +143,54 @@ func genStreamFile(r *Rng, m *Model) []byte {
 		}
 		return b
 	}
+}
+
+// lieAboutChunkLength edits one chunk (any but the header) of a well-formed file.
+func lieAboutChunkLength(r *Rng, b []byte) []byte {
+	type chunk struct{ pos, ln int }
+	var chunks []chunk
+	for pos := 0; pos+8 <= len(b); {
+		ln := int(b[pos+4])<<24 | int(b[pos+5])<<16 | int(b[pos+6])<<8 | int(b[pos+7])
+		if pos+8+ln > len(b) {
+			break
+		}
+		if pos > 0 {
+			chunks = append(chunks, chunk{pos, ln})
+		}
+		pos += 8 + ln
+	}
+	if len(chunks) == 0 {
+		return b
+	}
+	// mostly a chunk that is not the last one
+	ch := chunks[r.Intn(len(chunks))]
+	if len(chunks) > 1 && r.Chance(2, 3) {
+		ch = chunks[r.Intn(len(chunks)-1)]
+	}
+	put := func(out []byte, ln int) {
+		out[ch.pos+4], out[ch.pos+5], out[ch.pos+6], out[ch.pos+7] = byte(ln>>24), byte(ln>>16), byte(ln>>8), byte(ln)
+	}
+	end := ch.pos + 8 + ch.ln
+	out := append([]byte{}, b...)
+	switch r.Intn(4) {
+	case 0, 1: // padding that the length covers
+		k := r.Pick(1, 1, 2, 3, 4, 7, 8, 9, 16, 100)
+		pad := r.Bytes(k)
+		if r.Bool() {
+			for i := range pad {
+				pad[i] = 0
+			}
+		}
+		out = append(append(append([]byte{}, b[:end]...), pad...), b[end:]...)
+		put(out, ch.ln+k)
+	case 2: // the length reaches into what follows
+		put(out, ch.ln+r.Pick(1, 2, 4, 8, 9, 20))
+	default: // the length is too short
+		if ch.ln > 0 {
+			put(out, ch.ln-r.Range(1, min(ch.ln, 6)))
+		}
+	}
+	return out
 }
 
 func randomCuts(r *Rng, n int) []int {
